@@ -297,6 +297,7 @@ pub fn c09_shapes(thorough: bool, seed: u64) -> Vec<Shape> {
         Shape::new("phase2_only_three_gates", &[Commit], &[&[Chal, AllocMul, AllocMul, Alloc, Con]]),
         Shape::new("three_commits_alloc_pair", &[Commit, Commit, Commit, Alloc, Alloc, Con], &[]),
         Shape::new("closure_without_gates", &[Commit, AllocMul], &[&[Chal, Con]]),
+        Shape::new("phase2_single_open_allocation", &[Commit, AllocMul, Con], &[&[Chal, Alloc, Con]]),
     ];
     if thorough {
         v.extend(crate::shapes::c01_shapes(true, seed).into_iter().filter(|s| !matches!(s.coef, Coef::Mixed(_))));
